@@ -1049,6 +1049,10 @@ def inline_new_helpers(project, rec):
         if isinstance(f, ast.Attribute) and isinstance(f.value, ast.Name) and f.value.id in ("self", "cls") and caller.cls is not None:
             m = project.lookup_method(caller.cls, f.attr)
             if m is not None and m.qualname in shapes:
+                if any(f.attr in sc.methods for sc in project.subclasses(caller.cls)):
+                    # dynamic dispatch: for instances of that subclass the call runs the override, not this body -
+                    # inlining would hide it from every rule (soundness of the normaliser)
+                    return None, False
                 sh = shapes[m.qualname]
                 decos = {ast.unparse(d) for d in m.node.decorator_list}
                 if "classmethod" in decos:
